@@ -21,7 +21,9 @@ NAMES = ["foo", "bar", "src/a.c", "src/b.c", "out/x", "a/b/c", "README", ".hidde
          # the same names in another letter case (matching is case-sensitive)
          "Foo", "readme", "SRC/a.c", "src/A.C"]
 PATTERNS = ["*", "foo", "*.c", "src/*", "?ar", "[fb]*", "[!f]*", "[a-c]*", "a/b/*", "out/*", "nomatch", "src/a.c",
-            "*o*", "dst/*", "pkg/*", "a.c", "b.c", "x", "c", "FOO", "readme", "README", "*.C", "SRC/*", "[F]*", "Src/*"]
+            "*o*", "dst/*", "pkg/*", "a.c", "b.c", "x", "c", "FOO", "readme", "README", "*.C", "SRC/*", "[F]*", "Src/*",
+            # character classes without any * or ?
+            "[fb]oo", "ba[rz]", "src/[ab].c", "[!f]oo", "README[0-9]", "[rR]eadme", "ou[t]/x"]
 PREFIXES = ["src", "out", "a/b", "dst", "pkg", "dst/src"]   # normalised: no trailing slash
 BAD = ["a**b", "[a", "**x", "x**", "[!", "a[", "***", "[]"]
 SIMPLE = ["CREATE", "DELETE", "MODIFY", "ALLOW", "REQUIRE", "DISALLOW"]
